@@ -17,6 +17,10 @@
 //	(2) regression streams of the repaired defects (separate): cancel / delete of a waiting
 //	    query, the watcher of a cancelled query, a cancel on a full state channel (own
 //	    process, with timeout); the classes are listed as fixed, a recurrence is a VIOLATION.
+//	(2b) lock scenarios (locks.go): real calls against a query whose state channel is full;
+//	    returned/parked from goroutine states + TryLock probes of arqMapLock, waitingQueriesLock,
+//	    rqsLock after every call, compared with the lock-level model (QueryLife.exec) in Coq;
+//	    oracle: calls that concern only other queries return while the receiver is absent.
 //	(3) end-to-end: hundreds of short real queries over a small ingested data set with
 //	    cancels at random points and MAX_RUNNING_QUERIES = 2; afterwards both tables must be
 //	    empty and the goroutine population is compared with the baseline (observed only).
@@ -1892,6 +1896,8 @@ func main() {
 			workerSteps(a[1], a[2])
 		case "wedge":
 			workerWedge(a[1])
+		case "locks":
+			workerLocks(a[1], a[2])
 		case "e2e":
 			var seed uint64
 			var n int
@@ -2122,6 +2128,12 @@ func main() {
 		nFam = 600
 	}
 	famMain, famKnown := genFamily(r.Fork(), nFam)
+	// lock scenarios: what the senders on a full state channel hold while they wait, and whom that blocks
+	nLockMain, nLockTimeout, nLockKnown := 40, 4, 3
+	if cfg.Thorough() {
+		nLockMain, nLockTimeout, nLockKnown = 1200, 24, 24
+	}
+	lockRes := runLockStream(r.Fork(), wdir, nLockMain, nLockTimeout, nLockKnown, func(f func()) { spawn(f) })
 	var famRes, famKnownRes famResult
 	spawn(func() { famRes = runFamily(wdir, "main", famMain) })
 	// the real substr on the exhaustive grid start -3..8 x length none,-8..8 x 10 strings of 0..8 bytes
@@ -2345,6 +2357,9 @@ func main() {
 		}
 	}
 	flush(true)
+
+	// ---- lock scenarios ----
+	evalLockStream(sum, cfg.Out, wdir, lockRes)
 
 	// ---- wedge (known class, own process) ----
 	if wedgeOK {
